@@ -314,6 +314,22 @@ def h_mm_slice(ll, nlines, budget, timeout_ms, rng, n=2):
     t.findings = t.eng.run(st, '@k_mm_read_sparse', args(A, -1, -1), after_full, budget) + t.findings
     return t
 
+
+def h_mm_dense_robust(ll, nlines, budget, timeout_ms, rng):
+    """dense ('array') MatrixMarket files: valid integer banner, symbolic size line and value lines; row range concrete per task"""
+    t = mm_setup(ll, nlines, timeout_ms, True); st = t.st; cap = 64; rb, re_ = rng; t.inputs['row_beg'] = rb; t.inputs['row_end'] = re_
+    st.pc = [c for c in st.pc if 'word_2' not in str(c) and 'word_4' not in str(c)] + [z3.BitVec('word_2', 32) == 3, z3.BitVec('word_4', 32) == 7]     # 'array ... general'
+    # bound: rows and columns on the size line at most 3 each (the reader resizes to rows*cols and loops over both); negative values are not excluded
+    st.pc += [z3.BitVec('tok_1_0', 64) <= 3, z3.BitVec('tok_2_0', 64) <= 3, z3.BitVec('tok_1_1', 64) <= 3, z3.BitVec('tok_2_1', 64) <= 3, z3.BitVec('tok_1_1', 64) >= -3, z3.BitVec('tok_2_1', 64) >= -3, z3.BitVec('tok_1_0', 64) >= -3, z3.BitVec('tok_2_0', 64) >= -3]
+    rows_, cols_, val_, vl_ = t.out('rows', 8), t.out('cols', 8), t.out('val', 4 * cap), t.out('vl', 4); t.start()
+    def rd64(o): return z3.simplify(z3.Concat(*[o.bytes[k] for k in range(7, -1, -1)]))
+    def on_done(s2):
+        if s2.retval is None: t.findings.append(irsx.Violation("escaped-exception", "an exception left the wrapper", s2.model)); return
+        r = s2.retval; O = lambda x: s2.objs[x[0]]; rows = rd64(O(rows_)); cols = rd64(O(cols_)); vl = rd32(O(vl_), 0)
+        t.post(s2, z3.And(z3.Or(r == 0, r == 1), z3.Implies(r == 0, z3.And(rows >= 0, z3.Or(cols >= 0, rows == 0), z3.SignExt(32, vl) == rows * cols))), lambda m: "dense mm_reader returned normally with inconsistent sizes: rc=%s rows=%s cols=%s len=%s" % (m.eval(r), m.eval(rows), m.eval(cols), m.eval(vl)))
+    t.findings = t.eng.run(st, '@k_mm_read_dense', [bvv(rb, 64), bvv(re_, 64), rows_[1], cols_[1], val_[1], bvv(cap, 32), vl_[1]], on_done, budget) + t.findings
+    return t
+
 if __name__ == '__main__':
     ap = argparse.ArgumentParser(); ap.add_argument('--ll', required=True); ap.add_argument('--harness'); ap.add_argument('--fcap', type=int, default=24); ap.add_argument('--len', type=int, default=0); ap.add_argument('--n', type=int, default=1); ap.add_argument('--nnz', type=int, default=1); ap.add_argument('--m', type=int, default=1)
     ap.add_argument('--budget', type=float, default=600); ap.add_argument('--timeout-ms', type=int, default=30000); ap.add_argument('--out'); ap.add_argument('--diff', nargs=2, type=int); ap.add_argument('--diff-mm', nargs=2, type=int); ap.add_argument('--range', nargs=2, type=int)
@@ -330,6 +346,7 @@ if __name__ == '__main__':
     elif a.harness == 'crs_roundtrip': t = h_crs_roundtrip(a.ll, a.n, a.nnz, a.budget, a.timeout_ms); params = dict(n=a.n, nnz=a.nnz)
     elif a.harness == 'crs_roundtrip8': t = h_crs_roundtrip(a.ll, a.n, a.nnz, a.budget, a.timeout_ms, vbytes=8); params = dict(n=a.n, nnz=a.nnz, payload_bytes=8)
     elif a.harness == 'dense_roundtrip': t = h_dense_roundtrip(a.ll, a.n, a.m, a.budget, a.timeout_ms); params = dict(n=a.n, m=a.m)
+    elif a.harness == 'mm_dense_robust': t = h_mm_dense_robust(a.ll, a.n, a.budget, a.timeout_ms, tuple(a.range)); params = dict(nlines=a.n, row_range=list(a.range))
     elif a.harness == 'mm_slice': t = h_mm_slice(a.ll, a.n, a.budget, a.timeout_ms, tuple(a.range), n=a.m); params = dict(nlines=a.n, row_range=list(a.range), size=a.m)
     elif a.harness == 'mm_sparse_robust': t = h_mm_sparse_robust(a.ll, a.n, a.budget, a.timeout_ms, body=(a.m == 1), rng=(tuple(a.range) if a.range else None)); params = dict(nlines=a.n, banner=('valid' if a.m == 1 else 'any'), row_range=(a.range or 'symbolic in [-1,4]^2'))
     else: sys.exit("unknown harness")
